@@ -5,11 +5,7 @@
 // the working tree of /repo is never modified.
 package cli
 
-import (
-	"io"
-
-	"github.com/jawher/mow.cli/internal/fsm"
-)
+import "io"
 
 // VerifSetIO redirects the package-level output streams and the process-exit
 // indirection.
@@ -17,13 +13,4 @@ func VerifSetIO(out, err io.Writer, exit func(int)) {
 	stdOut = out
 	stdErr = err
 	exiter = exit
-}
-
-// VerifFSM runs the command's initialisation (exactly what Run does first) and
-// returns the compiled automaton that Run would use.
-func VerifFSM(c *Cli) (*fsm.State, error) {
-	if err := c.doInit(); err != nil {
-		return nil, err
-	}
-	return c.fsm, nil
 }
